@@ -198,7 +198,7 @@ PROP = {
                    "thorough": {"msgs": 270000, "oracle_graph_evals": 280000, "oracle_bcast_evals": 55000,
                                 "ref_invalid": 210000, "applied_ca": 20000, "applied_cu": 19000,
                                 "applied_na": 15000, "premature_reprocessed": 3800, "future_reinjected": 380,
-                                "oracle_zombie_evals": 315000, "z_cu": 115000, "z_made": 28000, "z_node_announcements_of_channelless_node": 5500,
+                                "oracle_zombie_evals": 315000, "z_cu": 115000, "z_made": 28000, "z_node_announcements_of_channelless_node": 3000,
                                 "z_may_resurrect": 12250, "z_must_reject": 102500, "z_rejected_ok": 102500,
                                 "z_resurrected_ok": 10500, "z_fresh_yes": 70000, "z_fresh_no": 46000,
                                 "z_readded_after_resurrection": 3950, "z_readded_with_stashed_update": 2800,
